@@ -11,6 +11,7 @@ package consensus
 import (
 	"encoding/hex"
 	"fmt"
+	"strings"
 )
 
 type scenario struct {
@@ -23,6 +24,7 @@ type scenario struct {
 	// call, 1-based) node crashNode is crashed and restarted; 0 = never
 	stepNo, crashAt, crashNode int
 	hold                       map[int]bool // nodes whose block-manager requests are NOT completed automatically
+	h                          int64        // height of the messages send() picks (0 = 1)
 }
 
 func (sc *scenario) tick() {
@@ -118,6 +120,9 @@ func (sc *scenario) send(to int, p msgPred) int {
 		if m.Kind != "part" && m.Round != p.round {
 			continue
 		}
+		if h := sc.h; (h == 0 && m.Height != 1) || (h != 0 && m.Height != h) {
+			continue
+		}
 		if p.block != "" && m.Block != p.block {
 			continue
 		}
@@ -136,16 +141,38 @@ func (sc *scenario) send(to int, p msgPred) int {
 	return cnt
 }
 
+// result returns what every validator finalized (block ids of height 1, 2, ..
+// joined by "+") and the number of distinct blocks finalized at the height with
+// the most disagreement (1 = agreement).
 func (sc *scenario) result() (fins map[int]string, distinct int) {
 	fins = map[int]string{}
-	vals := map[string]bool{}
+	perHeight := map[int]map[string]bool{}
 	for i, n := range sc.nodes {
 		if len(n.finalized) > 0 {
-			fins[i] = n.finalized[0]
-			vals[n.finalized[0]] = true
+			fins[i] = strings.Join(n.finalized, "+")
+			for h, f := range n.finalized {
+				if perHeight[h] == nil {
+					perHeight[h] = map[string]bool{}
+				}
+				perHeight[h][f] = true
+			}
 		}
 	}
-	return fins, len(vals)
+	for _, vals := range perHeight {
+		if len(vals) > distinct {
+			distinct = len(vals)
+		}
+	}
+	return fins, distinct
+}
+
+// finNames renders a "+"-joined list of finalized block ids with the table's block names.
+func (sc *scenario) finNames(f string) string {
+	var parts []string
+	for _, id := range strings.Split(f, "+") {
+		parts = append(parts, sc.x.mt.blockName(unhex(id)))
+	}
+	return strings.Join(parts, "+")
 }
 
 // verdict evaluates the C01 oracle on the scenario's end state.
@@ -163,10 +190,10 @@ func (sc *scenario) verdict() (sig, detail string) {
 		var parts []string
 		for _, i := range sc.x.correct {
 			if f, ok := fins[i]; ok {
-				parts = append(parts, fmt.Sprintf("V%d=%s@r%d", i, sc.x.mt.blockName(unhex(f)), sc.nodes[i].finalizedRound[0]))
+				parts = append(parts, fmt.Sprintf("V%d=%s (rounds %v)", i, sc.finNames(f), sc.nodes[i].finalizedRound))
 			}
 		}
-		return "disagreement", fmt.Sprintf("two correct validators finalized different blocks at height 1: %v", parts)
+		return "disagreement", fmt.Sprintf("two correct validators finalized different blocks at the same height: %v", parts)
 	}
 	return "", ""
 }
